@@ -66,12 +66,13 @@ enum Variant
   V_CV_STRUCT_VALUE,
   V_CV_STRUCT_VALUE_GENERIC,
   V_RANGE_LONG,
+  V_CV_ARRAY2D,
   V_COUNT
 };
 static const char* kVar[] = { "string_uptr",   "string_std",  "string_uptr_from_cell", "string_std_from_cell", "range_char",   "range_short",
                               "range_int",     "range_ll",    "range_double",          "range_int_from_cell",  "cv_ptr_prim",  "cv_ptr_prim_from_cell",
                               "cv_fund_in_cell", "cv_struct", "cv_array_field",        "cv_address_from_cell", "cv_buffer_address", "deny_access_copy",
-                              "string_const_uptr", "string_const_uptr_from_cell", "cv_array_field_by_reference", "cv_buffer_address_from_cell", "cv_struct_by_value", "cv_struct_by_value_generic_verifier", "range_long" };
+                              "string_const_uptr", "string_const_uptr_from_cell", "cv_array_field_by_reference", "cv_buffer_address_from_cell", "cv_struct_by_value", "cv_struct_by_value_generic_verifier", "range_long", "cv_array_of_arrays_field" };
 static_assert(sizeof(kVar) / sizeof(kVar[0]) == V_COUNT);
 
 enum Mut
@@ -107,6 +108,8 @@ static size_t elem_size(int v)
     case V_RANGE_LL:
     case V_RANGE_DOUBLE:
       return 8;
+    case V_CV_ARRAY2D:
+      return sizeof(SimGrid);
     case V_CV_STRUCT:
     case V_CV_STRUCT_VALUE:
     case V_CV_STRUCT_VALUE_GENERIC:
@@ -128,7 +131,7 @@ static bool uses_cell(int v)
 }
 static bool single_object(int v)
 {
-  return v == V_CV_PRIM || v == V_CV_PRIM_VOL || v == V_CV_FUND_VOL || v == V_CV_STRUCT || v == V_CV_STRUCT_VALUE || v == V_CV_STRUCT_VALUE_GENERIC || v == V_CV_ARRAY || v == V_CV_ARRAY_REF || v == V_CV_ADDR_VOL;
+  return v == V_CV_PRIM || v == V_CV_PRIM_VOL || v == V_CV_FUND_VOL || v == V_CV_STRUCT || v == V_CV_STRUCT_VALUE || v == V_CV_STRUCT_VALUE_GENERIC || v == V_CV_ARRAY2D || v == V_CV_ARRAY || v == V_CV_ARRAY_REF || v == V_CV_ADDR_VOL;
 }
 
 // length of a string handed over in a heap block of its own: never reads beyond the block
@@ -400,6 +403,10 @@ struct ToctouWorld : World
     std::array<char, 8> arr{};
     SimNode node_value{};
     bool node_value_set = false;
+    std::array<std::array<int, 4>, 2> arr2d;
+    bool arr2d_set = false;
+    for (auto& row : arr2d)
+      row.fill(0x0BADBEEF); // what a partial copy would leave behind
     long fund = 0;
     uintptr_t addr_val = 0;
     char* deny_buf = nullptr;
@@ -571,6 +578,16 @@ struct ToctouWorld : World
           });
           node_value_set = true;
           break;
+        case V_CV_ARRAY2D:
+          // an array of arrays (same element layout on both sides): every element comes from the sandbox
+          pA((SimGrid*)0)->m.copy_and_verify([&](std::array<int[4], 2> a) {
+            static_assert(sizeof a == sizeof arr2d);
+            verifier_saw(a.data(), sizeof a);
+            memcpy(arr2d.data(), a.data(), sizeof a);
+            return 0;
+          });
+          arr2d_set = true;
+          break;
         case V_CV_ARRAY_REF:
           // the verifier takes the array by reference: what it is handed must still be an application-side copy
           arr = pA((SimNode*)0)->name.copy_and_verify([&](const std::array<char, 8>& a) {
@@ -724,6 +741,9 @@ struct ToctouWorld : World
       } else if (u_struct) {
         kept_ptr = u_struct.get();
         kept_n = sizeof(*u_struct);
+      } else if (variant == V_CV_ARRAY2D && arr2d_set) {
+        kept_ptr = arr2d.data();
+        kept_n = sizeof arr2d;
       } else if (variant == V_CV_ARRAY || variant == V_CV_ARRAY_REF) {
         kept_ptr = arr.data();
         kept_n = 8;
